@@ -36,6 +36,15 @@ var c12Pipelines = []string{
 	`numbers(10).map(x->if x=a then throw("e") else x).merge(numbers(10),(p,q)->p<q).size()`,
 	`numbers(10).multiUse({f:l->l.map(x->if x=a then throw("e") else x).size(),s:l->l.size()}).s`,
 	`numbers(n).map(x->x+a).first()`,
+	// misuse and error paths of channel-fed stages
+	`numbers(a+3).multiUse({x:l->l.size(),y:3})`,
+	`numbers(a+3).multiUse({x:l->l.size(),y:(p,q)->p})`,
+	`numbers(a+3).multiUse({x:l->l.size(),y:l->l.map(e->e.k).size()})`,
+	`numbers(a+3).multiUse({x:l->l.first(),y:l->throw("e")})`,
+	`try numbers(a+3).multiUse({x:l->l.reduce((p,q)->p+q),y:l->l.map(e->if e=a then throw("e") else e).size()}) catch 0`,
+	`numbers(a+3).merge(3,(p,q)->p<q)`,
+	`numbers(a+3).merge(numbers(3),(p,q)->p.k<q).size()`,
+	`numbers(a+3).merge(numbers(3),(p,q)->7).size()`,
 	`numbers(n).accept(x->x>a).indexWhere(x->x>a+2)`,
 }
 
@@ -60,6 +69,15 @@ func c12Jobs(tier string, seed int64) []string {
 			if tier == "thorough" && pi < 2 {
 				add("tmpl:" + cfg + ":1:" + p)
 			}
+		}
+	}
+	// a complete expression followed by symbolic trailing tokens (over a small token alphabet)
+	for _, cfg := range []string{"val", "gcfk"} {
+		add("suffix:" + cfg + ":3:a+1")
+		add("suffix:" + cfg + ":2:f(a")
+		if tier == "thorough" {
+			add("suffix:" + cfg + ":4:a")
+			add("suffix:" + cfg + ":3:[a,{b:1}")
 		}
 	}
 	for _, p := range c12Pipelines {
